@@ -3,7 +3,7 @@
 
 use crate::ops::{Op, Rect, Stream};
 use crate::prng::Rng;
-use crate::rig::{DispCfg, ModelId, Tr, ALL_TR, BUILTIN, EXTERNAL};
+use crate::rig::{DispCfg, ModelId, Tr, ALL_TR, EXTERNAL};
 use crate::spec::Ori;
 
 #[derive(Clone, Copy, Debug, PartialEq, Eq)]
@@ -54,6 +54,41 @@ pub fn spi_buf_len(rng: &mut Rng, bits: u8) -> usize {
     }
 }
 
+/// (width, height, offset x, offset y) of real display modules built on the supported
+/// controllers, as their data sheets / common driver tables give them (native orientation)
+pub const MODULES: [(u16, u16, u16, u16); 30] = [
+    (240, 240, 0, 0),
+    (240, 240, 0, 80),
+    (240, 280, 0, 20),
+    (135, 240, 52, 40),
+    (135, 240, 53, 40),
+    (170, 320, 35, 0),
+    (172, 320, 34, 0),
+    (76, 284, 82, 18),
+    (240, 320, 0, 0),
+    (80, 160, 26, 1),
+    (80, 160, 24, 0),
+    (128, 128, 2, 1),
+    (128, 128, 2, 3),
+    (128, 128, 0, 32),
+    (128, 160, 0, 0),
+    (128, 160, 2, 1),
+    (132, 162, 0, 0),
+    (128, 115, 0, 0),
+    (128, 115, 2, 1),
+    (320, 240, 0, 0),
+    (320, 480, 0, 0),
+    (320, 320, 0, 80),
+    (222, 480, 49, 0),
+    (240, 536, 0, 0),
+    (160, 128, 0, 0),
+    (200, 200, 20, 20),
+    (240, 198, 0, 21),
+    (280, 240, 20, 0),
+    (128, 64, 0, 0),
+    (96, 64, 16, 0),
+];
+
 /// Pick a window (w, h, ox, oy) valid for the framebuffer.
 pub fn gen_window(rng: &mut Rng, fw: u16, fh: u16, max_area: u64) -> (u16, u16, u16, u16) {
     let (fw32, fh32) = (fw as u32, fh as u32);
@@ -70,6 +105,12 @@ pub fn gen_window(rng: &mut Rng, fw: u16, fh: u16, max_area: u64) -> (u16, u16, 
         6 => {
             // sizes of real-world panels built on these controllers
             const COMMON: [(u32, u32); 14] = [(80, 160), (128, 128), (128, 160), (135, 240), (240, 240), (170, 320), (172, 320), (240, 280), (240, 320), (320, 240), (320, 480), (240, 135), (160, 80), (130, 130)];
+            // half of the time a real module geometry with its real offset
+            let fits: Vec<&(u16, u16, u16, u16)> = MODULES.iter().filter(|g| g.0 as u32 + g.2 as u32 <= fw32 && g.1 as u32 + g.3 as u32 <= fh32).collect();
+            if !fits.is_empty() && rng.bool() {
+                let g = **rng.pick(&fits);
+                return (g.0, g.1, g.2, g.3);
+            }
             let (cw, ch) = *rng.pick(&COMMON);
             w = cw.min(fw32);
             h = ch.min(fh32);
@@ -145,7 +186,7 @@ pub fn gen_window(rng: &mut Rng, fw: u16, fh: u16, max_area: u64) -> (u16, u16, 
 
 pub fn gen_cfg(rng: &mut Rng, o: &CfgOpts) -> DispCfg {
     loop {
-        let model = if o.external && rng.chance(2, 5) { *rng.pick(&EXTERNAL) } else { *rng.pick(&BUILTIN) };
+        let model = if o.external && rng.chance(2, 5) { *rng.pick(&EXTERNAL) } else { *rng.pick(&crate::rig::builtin()) };
         let trs = transports_for(model, o);
         if trs.is_empty() {
             continue;
@@ -378,21 +419,58 @@ pub fn clip_class(r: &Rect, lw: i64, lh: i64) -> String {
     format!("{}{}", axis(r.x as i64, r.w as i64, lw), axis(r.y as i64, r.h as i64, lh))
 }
 
+/// Colours for the workload. Normally every colour of a case is distinct (a wrong cell names
+/// the call it came from). One case in six draws everything from a palette of three colours
+/// instead: equal neighbours, a stream that starts with the colour of the fill before it, the
+/// same colour coming back - coincidences that a driver or transport which compares or caches
+/// pixel values depends on.
 pub struct TagGen {
     next: u32,
+    palette: Option<[u32; 3]>,
+    lcg: u64,
 }
 impl TagGen {
     pub fn new(rng: &mut Rng) -> TagGen {
-        TagGen { next: (rng.next() as u32) & 0xFFFF }
+        let next = (rng.next() as u32) & 0xFFFF;
+        let palette = if rng.chance(1, 6) {
+            let a = rng.next() as u32 & 0x3FFFF;
+            Some([a, *rng.pick(&[0u32, 0xFFFF, a ^ 1, a ^ 0x100]), rng.next() as u32 & 0x3FFFF])
+        } else {
+            None
+        };
+        TagGen { next, palette, lcg: rng.next() | 1 }
+    }
+    pub fn is_palette(&self) -> bool {
+        self.palette.is_some()
     }
     pub fn one(&mut self) -> u32 {
+        if let Some(p) = self.palette {
+            self.lcg = self.lcg.wrapping_mul(6364136223846793005).wrapping_add(1442695040888963407);
+            // long stretches of one colour, now and then another
+            return p[match (self.lcg >> 33) % 16 {
+                0 => 1,
+                1 => 2,
+                _ => 0,
+            }];
+        }
         self.next = self.next.wrapping_add(1);
         self.next
     }
     pub fn run(&mut self, n: u64) -> u32 {
+        if self.palette.is_some() {
+            return self.one();
+        }
         let s = self.next.wrapping_add(1);
         self.next = self.next.wrapping_add(n.min(1 << 20) as u32);
         s
+    }
+    /// colour step of a sequential stream: 1, or 0 (a constant stream) in palette mode
+    pub fn step(&mut self) -> u32 {
+        if self.palette.is_some() {
+            0
+        } else {
+            1
+        }
     }
 }
 
@@ -415,6 +493,10 @@ pub fn gen_pixel_stream(
             break;
         }
         let room = max_pixels - v.len();
+        let seg_start = v.len();
+        // the same shapes also mirrored (right to left, bottom to top) and transposed (columns):
+        // decided up front so that the shape generators below stay direction-agnostic
+        let reflect = rng.below(8);
         match rng.below(12) {
             0 | 1 => {
                 // one horizontal run, length around the capacities
@@ -556,6 +638,28 @@ pub fn gen_pixel_stream(
                 }
             }
         }
+        let seg = &mut v[seg_start..];
+        match reflect {
+            0 => seg.iter_mut().for_each(|p| p.0 = (lw - 1) as i32 - p.0),
+            1 => seg.iter_mut().for_each(|p| p.1 = (lh - 1) as i32 - p.1),
+            2 => seg.iter_mut().for_each(|p| *p = ((lw - 1) as i32 - p.0, (lh - 1) as i32 - p.1, p.2)),
+            3 if seg.iter().all(|p| (p.0 as i64) < lh && (p.1 as i64) < lw) => seg.iter_mut().for_each(|p| *p = (p.1, p.0, p.2)),
+            _ => {}
+        }
+        // a later segment that paints a long run over the start of this one (what was batched
+        // earlier must reach the panel earlier)
+        if rng.chance(1, 10) && seg_start < v.len() {
+            let (x, y, _) = v[seg_start];
+            let len = rng.range(cap_row, 2 * cap_row + 2).min(lw);
+            let x0 = (x as i64 - rng.range(0, len - 1)).clamp(0, (lw - len).max(0));
+            let c = tags.one();
+            let constant = rng.bool();
+            for i in 0..len {
+                if v.len() < max_pixels {
+                    v.push(((x0 + i) as i32, y, if constant { c } else { tags.one() }));
+                }
+            }
+        }
     }
     v.truncate(max_pixels);
     if mode == Mode::Hostile {
@@ -632,7 +736,7 @@ pub fn gen_draw_op(rng: &mut Rng, lw: i64, lh: i64, bits: u8, tags: &mut TagGen,
                     sy: r.y as u16,
                     ex: (r.x as i64 + r.w as i64 - 1) as u16,
                     ey: (r.y as i64 + r.h as i64 - 1) as u16,
-                    colors: Stream::Seq { start: tags.run(n), step: 1, len: Some(n) },
+                    colors: Stream::Seq { start: tags.run(n), step: tags.step(), len: Some(n) },
                 }];
             }
             2 | 3 | 4 => {
@@ -662,7 +766,7 @@ pub fn gen_draw_op(rng: &mut Rng, lw: i64, lh: i64, bits: u8, tags: &mut TagGen,
                 }
                 let len = if area > (1 << 24) && len.map(|l| l > bound + 8).unwrap_or(true) { Some(bound + 1 + rng.below(8)) } else { len };
                 let n = len.unwrap_or(area).min(area);
-                let colors = if rng.chance(1, 3) { Stream::Hash { seed: tags.one(), len } } else { Stream::Seq { start: tags.run(n), step: 1, len } };
+                let colors = if rng.chance(1, 3) { Stream::Hash { seed: tags.one(), len } } else { Stream::Seq { start: tags.run(n), step: tags.step(), len } };
                 return vec![Op::FillContiguous { rect: r, colors }];
             }
             7 | 8 => {
